@@ -5,6 +5,7 @@
   Import-free (core Lean only).
 -/
 import VotelibModel.Core
+import VotelibModel.Gen.Threshold
 namespace VL
 
 /-! ### generic Python list primitives used by threshold.py / openlist.py / core.py -/
@@ -26,24 +27,27 @@ def dedupKeep : List Cand → List Cand
   | [] => []
   | x :: xs => x :: (dedupKeep xs).filter (fun y => y != x)
 
-/-- the comparison every threshold in the library uses:
-    `n_votes > threshold or accept_equal and n_votes == threshold` -/
+/-- the comparison `n_votes > threshold or accept_equal and n_votes == threshold` as used (hand-written) by the
+    open-list jump condition (openlist.py L122-127) and by QuotaSelector; the two threshold classes use the
+    conditions generated from their source instead -/
 def passes (eq : Bool) (t v : Rat) : Bool := decide (t < v) || (eq && decide (v = t))
 
 /-- a seatless selector called as `evaluate(votes)` -/
 abbrev Seatless := Votes → Except Err (List Cand)
 
-/-- `AbsoluteThreshold.evaluate` (threshold.py L39-52) -/
+/-- `AbsoluteThreshold.evaluate` (threshold.py L39-52).  The filter condition of the comprehension is
+    `Gen.Threshold.abs_threshold_passes`, regenerated from the source by harness/translate.py on every run. -/
 def absoluteThreshold (t : Rat) (eq : Bool) (votes : Votes) : List Cand :=
-  ((sortDesc votes).filter (fun p => passes eq t p.2)).map (·.1)
+  ((sortDesc votes).filter (fun p => Gen.Threshold.abs_threshold_passes t eq p.2)).map (·.1)
 
 /-- `RelativeThreshold.evaluate` (threshold.py L77-92).  `Fraction(n_votes, total)` raises
-    `ZeroDivisionError` when the total is zero (and the comprehension is entered at all). -/
+    `ZeroDivisionError` when the total is zero (and the comprehension is entered at all).  The filter condition
+    is `Gen.Threshold.rel_threshold_passes`, regenerated from the source on every run. -/
 def relativeThreshold (t : Rat) (eq : Bool) (votes : Votes) : Except Err (List Cand) :=
   let total := sumVals votes
   if votes.isEmpty then .ok []
   else if total = 0 then .error (.other "ZeroDivisionError")
-  else .ok (((sortDesc votes).filter (fun p => passes eq t (p.2 / total))).map (·.1))
+  else .ok (((sortDesc votes).filter (fun p => Gen.Threshold.rel_threshold_passes t eq total p.2)).map (·.1))
 
 /-! ### AlternativeThresholds (threshold.py L224-255) -/
 
